@@ -125,7 +125,7 @@ def NLL(nn_state, samples, space=None, sample_bases=None, **kwargs):
 
             NLL_ -= torch.sum(probs_to_logits(nn_probs))
 
-        return NLL_ / float(len(samples))
+        return (NLL_ / float(len(samples))).item()
 
 
 def _single_basis_KL(target_probs, nn_probs):
